@@ -754,7 +754,16 @@ class Manager:
             if event.stopped:
                 break  # Stop further event processing
 
-        self._currently_handling = handling
+        if isinstance(handling, generate_events):
+            # back in a generate_events handler that flushed: what another
+            # thread has fired meanwhile woke nobody (this event was the
+            # handled one), so the idle wait must not begin now
+            with self._lock:
+                self._currently_handling = handling
+                if len(self._queue):
+                    handling.reduce_time_left(0)
+        else:
+            self._currently_handling = handling
         event.waitingHandlers -= 1
         self._eventDone(event, err)
 
